@@ -12,7 +12,10 @@ ALSO = {"C15_m1": ["C05", "C01"], "C01_m2": ["C08", "C06"], "C02_m2": ["C01", "C
         "C06_m2": ["C01"], "C12_m1": ["C14"], "C08_m1": ["C01"], "C01_m3": ["C15", "C02"], "C16_m3": ["C09"], "C02_m1": ["C10"],
         "C15_m2": ["C01", "C02"], "C01_m1": ["C15", "C02"], "C08_m3": ["C01"], "C09_m3": ["C06"], "C07_m3": ["C01"],
         "C01_m4": ["C06"], "C02_m4": ["C01", "C11"], "C07_m4": ["C01"], "C08_m4": ["C10"], "C09_m4": ["C06"], "C15_m4": ["C07", "C01"],
-        "C16_m4": ["C06", "C08"], "C11_m4": ["C06"], "C06_m4": ["C11"], "C05_m4": ["C01"], "C12_m4": ["C14"]}
+        "C16_m4": ["C06", "C08"], "C11_m4": ["C06"], "C06_m4": ["C11"], "C05_m4": ["C01"], "C12_m4": ["C14"],
+        "C01_m5": ["C06", "C08"], "C02_m5": ["C01"], "C04_m5": ["C12", "C01"], "C05_m5": ["C01", "C15"], "C06_m5": ["C08", "C01"],
+        "C07_m5": ["C08", "C01"], "C08_m5": ["C06", "C01"], "C09_m5": ["C06"], "C10_m5": ["C08"], "C11_m5": ["C15", "C04"],
+        "C12_m5": ["C05", "C01"], "C15_m5": ["C05", "C01"], "C16_m5": ["C06", "C09"], "C17_m5": ["C12"], "C18_m5": ["C01", "C12"]}
 
 
 def needs_of(notes: str) -> str:
